@@ -27,7 +27,7 @@ func weightsFor(profile string) map[string]int {
 		"stake": 2, "oracle_round": 1, "byz_claim": 2, "node_restart": 1, "clock_jump": 2, "batch_race": 2}
 	switch profile {
 	case "C05adv":
-		return map[string]int{"block": 20, "adv_event": 14, "user_send": 10, "req_batch": 4, "user_cancel": 2, "clock_jump": 2, "sign_all": 1}
+		return map[string]int{"block": 20, "adv_event": 14, "user_send": 10, "req_batch": 4, "user_cancel": 2, "clock_jump": 2, "sign_all": 1, "huge_fees": 3}
 	case "C05size":
 		return map[string]int{"block": 10, "size_burst": 6, "poll_all": 8, "sign_all": 4, "relay": 4, "clock_jump": 3, "ext_deposit": 3, "ext_tick": 2}
 	case "C04", "C10", "C12", "C13":
@@ -63,11 +63,11 @@ func weightsFor(profile string) map[string]int {
 		base["oracle_round"] = 3
 		base["set_keys"] = 3
 	case "C16":
-		base["confirm_fuzz"] = 16
-		base["sign_all"] = 10
-		base["orch_sign"] = 8
+		base["confirm_fuzz"] = 18
+		base["sign_all"] = 6
+		base["orch_sign"] = 6
 		base["user_send"] = 14
-		base["stake"] = 4
+		base["stake"] = 12
 	case "C17":
 		base["set_keys"] = 22
 		base["poll_all"] = 12
@@ -368,14 +368,14 @@ func (g *Gen) Step() {
 			g.emit(Intent{T: "node_restart", Pick: g.R.Intn(4)})
 		}
 	case "confirm_fuzz":
-		muts := []string{"", "", "unknown", "wrong_token", "wrong_chain", "other_signer", "garbage", "short_sig", "foreign"}
+		muts := []string{"", "", "", "", "unknown", "wrong_token", "wrong_chain", "other_signer", "garbage", "short_sig", "foreign"}
 		in := Intent{T: "confirm_fuzz", V: g.R.Intn(len(w.Vals)), Chain: g.chain(), Op: []string{"ss", "batch"}[g.R.Intn(2)], Pick: g.R.Intn(6), Mut: muts[g.R.Intn(len(muts))], Net: g.net()}
 		if g.R.Intn(5) == 0 {
 			in.As = "oper"
 		}
 		g.emit(in)
 	case "set_keys":
-		ops := []string{"", "", "fresh", "fresh", "steal_ext", "steal_ext_key", "steal_orch", "stale", "future", "wrong_key", "replay", "unknown_val", "other_signer"}
+		ops := []string{"", "", "fresh", "fresh", "xchain", "xchain", "steal_ext", "steal_ext_key", "steal_ext_key", "steal_orch", "stale", "future", "wrong_key", "replay", "unknown_val", "other_signer"}
 		chains := append(append([]string{}, Chains...), "tron")
 		in := Intent{T: "set_keys", V: g.R.Intn(len(w.Vals)), Chain: chains[g.R.Intn(len(chains))], Op: ops[g.R.Intn(len(ops))], Pick: g.R.Intn(len(w.Vals)), Net: g.net()}
 		if g.R.Intn(8) == 0 {
@@ -390,6 +390,8 @@ func (g *Gen) Step() {
 		g.sizeBurst()
 	case "batch_race":
 		g.batchRace()
+	case "huge_fees":
+		g.hugeFees()
 	case "cancel_pair":
 		// several withdrawals in one transaction, then their sender cancels them one after the other
 		t := g.token()
@@ -566,6 +568,7 @@ func (g *Gen) oracleRound() {
 }
 
 var extremeAmounts = []string{"0", "1", "-1", "-1000000000000000000", "57896044618658097711785492504343953926634992332820282019728792003956564819967",
+	"115792089237316195423570985008687907853269984665640564039457584007913129639935", "-115792089237316195423570985008687907853269984665640564039457584007913129639935",
 	"-57896044618658097711785492504343953926634992332820282019728792003956564819967", "28948022309329048855892746252171976963317496166410141009864396001978282409984",
 	"1000000000000000000", "340282366920938463463374607431768211456", "nil"}
 
@@ -617,4 +620,47 @@ func (g *Gen) sizeBurst() {
 		g.emit(Intent{T: "user_send", U: u, Chain: t.Chain, Denom: t.Denom, Amt: "1000", Fee: f, Net: "seq" + strconv.Itoa(i/len(w.Users))})
 	}
 	w.St.Probe("size_burst")
+}
+
+// hugeFees: 2^255-scale deposits are burnt as bridge fees and minted again, several times inside one batching
+// window, so that fee sums over a pool or a batch pass 2^256 (everything here passes stateless validation).
+func (g *Gen) hugeFees() {
+	w := g.W
+	var tok *TokenCfg
+	for i := range w.Cfg.Tokens {
+		if w.Cfg.Tokens[i].Decimals == 18 {
+			tok = &w.Cfg.Tokens[i]
+			if g.R.Intn(2) == 0 {
+				break
+			}
+		}
+	}
+	if tok == nil {
+		return
+	}
+	w.St.Probe("huge-fee-scenario")
+	u := g.R.Intn(len(w.Users))
+	p255 := new(big.Int).Lsh(big.NewInt(1), 255)
+	dep := new(big.Int).Sub(p255, big.NewInt(1)).String()
+	amt := new(big.Int).Lsh(big.NewInt(1), 253).String()
+	fee := new(big.Int).Sub(new(big.Int).Add(new(big.Int).Lsh(big.NewInt(1), 254), new(big.Int).Lsh(big.NewInt(1), 253)), big.NewInt(1)).String()
+	// align so that the window starts right after a batching block
+	if w.N().Height%2 == 1 {
+		g.emit(Intent{T: "block", Dt: 5, N: 1})
+	}
+	step := func(deps, sends int) {
+		for i := 0; i < sends; i++ {
+			g.emit(Intent{T: "user_send", U: u, Chain: tok.Chain, Denom: tok.Denom, Amt: amt, Fee: fee})
+		}
+		for i := 0; i < deps; i++ {
+			g.emit(Intent{T: "adv_event", Chain: tok.Chain, Op: "sth", Denom: tok.Denom, Amt: dep, U: u, Skip: i})
+		}
+		g.emit(Intent{T: "block", Dt: 5, N: 1})
+	}
+	step(2, 0)
+	for k := 0; k < 4 && !w.Stopped(); k++ {
+		step(2, 2)
+	}
+	step(0, 2)
+	g.emit(Intent{T: "block", Dt: 5, N: 3})
 }
